@@ -516,6 +516,34 @@ func loopBodyMustPass(g *eng.Graph, loop ast.Stmt, via func(*eng.GNode) bool) bo
 	return true
 }
 
+// loopIterMustPassBefore: every path through one iteration of the loop that comes back to the loop head, leaves the
+// loop normally or reaches a node satisfying target passes a node satisfying via (paths that leave the function are
+// not constrained).
+func loopIterMustPassBefore(g *eng.Graph, loop ast.Stmt, via, target func(*eng.GNode) bool) bool {
+	entry := loopBodyEntryOf(g, loop)
+	if entry == nil {
+		return false
+	}
+	isHead := isLoopHeadOf(loop)
+	isDone := func(n *eng.GNode) bool {
+		if n.Node != nil || n.Block.Stmt != loop {
+			return false
+		}
+		k := n.Block.Kind.String()
+		return k == "RangeDone" || k == "ForDone"
+	}
+	reach := g.Reach(eng.Query{From: []*eng.GNode{entry}, AvoidNode: func(n *eng.GNode) bool { return via(n) || isHead(n) || isDone(n) }})
+	for n := range reach {
+		if via(n) {
+			continue
+		}
+		if isHead(n) || isDone(n) || target(n) {
+			return false
+		}
+	}
+	return true
+}
+
 func runC01R7(c *eng.Ctx, r *eng.RuleCtx) {
 	p := c.P
 	snapI := p.Method(pkgKem, "Monitor", "Snapshot")
